@@ -37,6 +37,15 @@ def neighbours(s, alphabet, whole=True):
                              (sep.join(parts[:-2]), 'drop-last-two-groups')):
                     if t and t != s:
                         yield t, 'whole:' + d
+        # the first group repeated inside the second (a prefix that occurs again further on: replace() without a count)
+        for sep in dict.fromkeys(ch for ch in s if not ch.isalnum()):
+            parts = s.split(sep)
+            if len(parts) >= 2 and parts[0] and len(parts[1]) >= len(parts[0]):
+                t = sep.join([parts[0], parts[0] + parts[1][len(parts[0]):]] + parts[2:])
+                for u, d in ((t, 'echo-prefix'), (t.lower(), 'echo-prefix-lower'), (parts[0].lower() + t[len(parts[0]):], 'echo-prefix-mixed')):
+                    if u != s:
+                        yield u, 'whole:' + d
+            break
         # heavy but uniform decoration (fixed-width padding, one separator between all characters, tripled separators)
         a = ''.join(ch for ch in s if ch.isalnum())
         for t, d in ((' '.join(a), 'spaced'), ('-'.join(a), 'hyphenated'), ('.'.join(a), 'dotted'),
